@@ -51,6 +51,8 @@ type Monitor struct {
 	Lock    string          // field name of the mutex (or pointer-to-mutex field)
 	Guards  map[string]bool // field -> guarded
 	WriteOnly map[string]bool // field -> only writes need the lock
+	CloseOnly map[string]bool // chan field -> never reassigned once the object is shared; only closing its channel needs the lock
+	RWrite    map[string]bool // field -> writers hold this (RW) lock in read mode only; another monitor listing the field serialises them
 }
 
 type TypeContract struct {
@@ -63,6 +65,10 @@ type TypeContract struct {
 	GhostFields map[string]string // ghost field name -> type text
 	Strong     []*Clause // invariants that hold at every instant, also inside critical sections
 	OwnsChan   []string  // chan-typed fields whose channels are closed only under the type's own protocol
+	ChanUnder  map[string]string // chan field -> "Type.lockfield": every close of the field's channel happens under a lock of that class
+	RestInvs   []*Clause // monitor invariants that hold only while the lock is free (not at hand-over or helper calls inside a critical section)
+	ObjInvs    []*Clause // hold for every object of the type from the moment it is shared (checked when it stops being thread-local and after stores to the fields they mention)
+	SyncMaps   map[string]string // sync.Map field -> type text of the values it holds (non-nil pointers of that type)
 	File       string
 }
 
@@ -94,6 +100,7 @@ type Contracts struct {
 	Lemmas  []*Lemma
 	Files   []string
 	AssumeLines []string // mechanical scan: every assume-contract / ASSUMED line
+	UsesCloseOnly map[string]bool // package name -> its contracts mention closeonly
 }
 
 var clauseKeywords = map[string]bool{
@@ -101,14 +108,14 @@ var clauseKeywords = map[string]bool{
 	"nopanic": true, "arith": true, "inv": true, "decreases": true, "assert": true, "callee": true,
 	"stable": true, "escapable": true, "thread-entry": true, "split": true, "inline": true, "pure": true,
 	"monitor": true, "invariant": true, "rely": true, "self": true, "maypanic": true, "havoc": true,
-	"assume": true, "entry-assume": true, "ownschan": true, "strong-invariant": true, "ghostfield": true, "interferes": true, "ghost": true, "unroll": true, "trusted": true,
+	"assume": true, "entry-assume": true, "ownschan": true, "strong-invariant": true, "ghostfield": true, "interferes": true, "ghost": true, "unroll": true, "trusted": true, "syncmap": true, "object-invariant": true, "rest-invariant": true,
 }
 var blockKeywords = map[string]bool{"type": true, "func": true, "spec": true, "lemma": true, "assume-contract": true, "global": true, "chan": true}
 
 var labelRe = regexp.MustCompile(`\s*\[([A-Za-z0-9_:\-\.]+)\]\s*$`)
 
 func LoadContracts(repo string) (*Contracts, error) {
-	cs := &Contracts{Funcs: map[string]*FuncContract{}, Types: map[string]*TypeContract{}, Specs: map[string]*SpecFunc{}, Globals: map[string][]*Clause{}, Assumed: map[string]*FuncContract{}}
+	cs := &Contracts{Funcs: map[string]*FuncContract{}, Types: map[string]*TypeContract{}, Specs: map[string]*SpecFunc{}, Globals: map[string][]*Clause{}, Assumed: map[string]*FuncContract{}, UsesCloseOnly: map[string]bool{}}
 	var files []string
 	filepath.Walk(repo, func(p string, info os.FileInfo, err error) error {
 		if err != nil {
@@ -162,6 +169,9 @@ func (cs *Contracts) parseFile(path string) error {
 				body = strings.TrimSpace(body[:idx])
 			}
 			raws = append(raws, rawLine{body, i + 1})
+			if strings.Contains(body, "closeonly") && pkg != "" {
+				cs.UsesCloseOnly[pkg] = true
+			}
 			continue
 		}
 		if t == "" || strings.HasPrefix(t, "//") {
@@ -261,21 +271,51 @@ func (cs *Contracts) parseFile(path string) error {
 					if len(parts) != 2 {
 						return fmt.Errorf("%s:%d: monitor LOCK guards fields", path, l.line)
 					}
-					m := &Monitor{Lock: strings.TrimSpace(parts[0]), Guards: map[string]bool{}, WriteOnly: map[string]bool{}}
+					m := &Monitor{Lock: strings.TrimSpace(parts[0]), Guards: map[string]bool{}, WriteOnly: map[string]bool{}, RWrite: map[string]bool{}, CloseOnly: map[string]bool{}}
 					for _, f := range strings.Split(parts[1], ",") {
 						f = strings.TrimSpace(f)
 						if strings.HasSuffix(f, "(write)") {
 							f = strings.TrimSuffix(f, "(write)")
 							m.WriteOnly[f] = true
 						}
+						if strings.HasSuffix(f, "(close)") {
+							f = strings.TrimSuffix(f, "(close)")
+							m.CloseOnly[f] = true
+							m.WriteOnly[f] = true
+						}
+						if strings.HasSuffix(f, "(rwrite)") {
+							f = strings.TrimSuffix(f, "(rwrite)")
+							m.RWrite[f] = true
+						}
 						m.Guards[f] = true
 					}
 					curT.Monitors = append(curT.Monitors, m)
 				case "ownschan":
 					for _, f := range strings.Split(l.rest, ",") {
-						curT.OwnsChan = append(curT.OwnsChan, strings.TrimSpace(f))
+						f = strings.TrimSpace(f)
+						if i := strings.Index(f, "("); i > 0 && strings.HasSuffix(f, ")") {
+							if curT.ChanUnder == nil {
+								curT.ChanUnder = map[string]string{}
+							}
+							cls := f[i+1 : len(f)-1]
+							if !strings.Contains(cls, ".") {
+								cls = curT.Name + "." + cls
+							}
+							curT.ChanUnder[f[:i]] = pkg + "." + cls
+							f = f[:i]
+						}
+						curT.OwnsChan = append(curT.OwnsChan, f)
 					}
 					cs.AssumeLines = append(cs.AssumeLines, fmt.Sprintf("%s:%d: type %s ownschan %s (ASSUMED: code outside watermill never closes these channels; the module's own close sites are listed by the frame sweep)", filepath.Base(filepath.Dir(path)), l.line, curT.Name, l.rest))
+				case "syncmap":
+					fs := strings.Fields(l.rest)
+					if len(fs) != 2 {
+						return fmt.Errorf("%s:%d: syncmap FIELD VALUETYPE", path, l.line)
+					}
+					if curT.SyncMaps == nil {
+						curT.SyncMaps = map[string]string{}
+					}
+					curT.SyncMaps[fs[0]] = fs[1]
 				case "ghostfield":
 					fs := strings.Fields(l.rest)
 					if len(fs) != 2 {
@@ -285,6 +325,18 @@ func (cs *Contracts) parseFile(path string) error {
 						curT.GhostFields = map[string]string{}
 					}
 					curT.GhostFields[fs[0]] = fs[1]
+				case "rest-invariant":
+					c, err := mkClause("invariant", l.rest, path, l.line)
+					if err != nil {
+						return err
+					}
+					curT.RestInvs = append(curT.RestInvs, c)
+				case "object-invariant":
+					c, err := mkClause("invariant", l.rest, path, l.line)
+					if err != nil {
+						return err
+					}
+					curT.ObjInvs = append(curT.ObjInvs, c)
 				case "strong-invariant":
 					c, err := mkClause("invariant", l.rest, path, l.line)
 					if err != nil {
